@@ -6,8 +6,11 @@
    maintenance steps start further such goroutines; background seals and Release run in their own
    goroutines; the scheduler picks which goroutine performs its next file operation; the process may die
    after ANY operation of ANY of them; a new process runs the loader (its removals can be interrupted
-   too). seq = false gives the code before 14be38b (`for ... { go outsider.Suicide() }`: one goroutine
-   per outsider), kept as the _v0 definitions. No proofs here.
+   too). Since fix bd65f76 the goroutine of a pass first waits for the goroutine of the previous pass
+   (`if prevDone != nil { <-prevDone }`), so passes delete strictly in the order they were started.
+   seq = false gives the code before 14be38b (`for ... { go outsider.Suicide() }`: one goroutine per
+   outsider; _v0), chain = false the code between 14be38b and bd65f76 (pass goroutines independent of
+   each other; _v1). No proofs here.
 
    Anchors: fracmanager/fracmanager.go (shrinkSizes, shiftFirstFrac, maintenance, rotate, seal, Load),
    fracmanager/proxy_frac.go (Suicide, Seal), frac/sealed.go (Suicide), frac/active.go (Suicide, Release),
@@ -161,11 +164,16 @@ Fixpoint set_nth {A} (j : nat) (x : A) (l : list A) : list A :=
   | y :: r, S j' => y :: set_nth j' x r
   end.
 
-Definition dstep (seq sorted : bool) (d : dstate) (e : dev) : dstate :=
+(* every earlier pass goroutine has deleted all its outsiders (its `done` channel is closed) *)
+Definition prev_done (j : nat) (jobs : list (list nat)) : bool :=
+  forallb (fun q => match q with [] => true | _ => false end) (firstn j jobs).
+
+Definition dstep (seq chain sorted : bool) (d : dstate) (e : dev) : dstate :=
   if d_up d then
     match e with
     | DPass k => mkd true (evict_first k (d_fr d)) (d_jobs d ++ [evict_pos k 0 (d_fr d)])
     | DJob j =>
+        if chain && negb (prev_done j (d_jobs d)) then d else     (* <-prevDone *)
         match nth j (d_jobs d) [] with
         | [] => d
         | h :: r =>
@@ -196,8 +204,9 @@ Definition dstep (seq sorted : bool) (d : dstate) (e : dev) : dstate :=
     end.
 
 (* the code as it is (one deleting goroutine per pass) and as it was (one per outsider) *)
-Definition drun (sorted : bool) (evs : list dev) (d : dstate) : dstate := fold_left (dstep true sorted) evs d.
-Definition drun_v0 (sorted : bool) (evs : list dev) (d : dstate) : dstate := fold_left (dstep false sorted) evs d.
+Definition drun (sorted : bool) (evs : list dev) (d : dstate) : dstate := fold_left (dstep true true sorted) evs d.
+Definition drun_v1 (sorted : bool) (evs : list dev) (d : dstate) : dstate := fold_left (dstep true false sorted) evs d.
+Definition drun_v0 (sorted : bool) (evs : list dev) (d : dstate) : dstate := fold_left (dstep false false sorted) evs d.
 
 (* ------------------------------------------------------------------ complete restart *)
 
@@ -249,6 +258,11 @@ Definition clean_active : st := mkstate (fs_of [KDocs; KMeta]) true false (PIdle
 Definition step_only (e : dev) : bool := match e with DJob _ | DStep _ | DStepR _ => true | _ => false end.
 Definition after_crashed_pass (sorted : bool) (k : nat) (sched : list dev) (d0 : list st) : list st :=
   restart_all sorted (map crash1 (d_fr (drun sorted (DPass k :: filter step_only sched) (mkd true d0 [])))).
+(* any number of passes in flight: any events that start a pass or let a goroutine perform an operation
+   (a Suicide blocked by a reader or a seal = its goroutine is simply not scheduled), crash, complete restart *)
+Definition live_only (e : dev) : bool := match e with DPass _ | DJob _ | DStep _ | DStepR _ => true | _ => false end.
+Definition after_crashed_passes (sorted : bool) (evs : list dev) (d0 : list st) : list st :=
+  restart_all sorted (map crash1 (d_fr (drun sorted (filter live_only evs) (mkd true d0 [])))).
 Definition after_crashed_pass_v0 (sorted : bool) (k : nat) (sched : list nat) (d0 : list st) : list st :=
   restart_all sorted (map crash1 (d_fr (drun_v0 sorted (DPass k :: map DStep sched) (mkd true d0 [])))).
 
